@@ -316,6 +316,12 @@ def learnGate (c : Cfg) (k : LearnKind) (vpnAddrs : List Addr) (cur : Option AP)
       else if suppressed then none else some via.udp
     else none
 
+/-- `QueryCache(vpnAddrs)`: makes sure the peer has a remote list (a hostinfo gets its `remotes` this way). -/
+def queryCache (s : LH) (vpnAddrs : List Addr) : LH :=
+  match s.lookup (vpnAddrs.headD ⟨.v4, 0⟩) with
+  | some _ => s
+  | none => (getRemoteList s vpnAddrs).1
+
 /-- `SetRemote` (learns only when the remote changes) on the list `QueryCache(vpnAddrs)` returns. -/
 def learnEvent (c : Cfg) (s : LH) (k : LearnKind) (vpnAddrs : List Addr) (cur : Option AP) (via : Via)
     (suppressed : Bool) : LH :=
@@ -353,6 +359,7 @@ inductive Ev where
   | refresh (id : Nat) (vpnAddrs : List Addr)                -- RefreshFromHandshake
   | delete (vpnAddrs : List Addr)                            -- DeleteVpnAddrs
   | read (id : Nat) (pref : List Prefix)                     -- CopyAddrs / ForEach / Len
+  | query (vpnAddrs : List Addr)                             -- QueryCache
 
 def applyEv (c : Cfg) (s : LH) : Ev → LH
   | .msg f m => (handleRequest c s f m).1
@@ -367,5 +374,6 @@ def applyEv (c : Cfg) (s : LH) : Ev → LH
   | .refresh id vs => onList s id (fun rl => refreshFromHandshake rl vs)
   | .delete vs => deleteVpnAddrs c s vs
   | .read id pref => onList s id (fun rl => rebuild rl (some (shouldAddAll c)) pref)
+  | .query vs => queryCache s vs
 
 end Nebula.Lighthouse
